@@ -80,11 +80,11 @@ fn gen_file(w: &World, scale: Scale, max_recs: u64, max_len: u64) -> FileModel {
         own_len_as_width: bool,
     }
     let mut plans: Vec<Plan> = Vec::new();
-    let max_recs = if scale == Scale::Many { 40 } else { max_recs };
+    let max_recs = if scale == Scale::Many { if w.chance(1, 4) { 300 } else { 40 } } else { max_recs };
     loop {
         let i = plans.len();
         if i > 0 {
-            let go = if scale == Scale::Many { (i as u64) < max_recs && w.chance(15, 16) } else { w.more(i as u64, max_recs) };
+            let go = if scale == Scale::Many { (i as u64) < max_recs && w.chance(if max_recs > 40 { 150 } else { 15 }, if max_recs > 40 { 151 } else { 16 }) } else { w.more(i as u64, max_recs) };
             if !go {
                 break;
             }
@@ -456,7 +456,7 @@ fn run_history(w: &W, f: &FileModel, steps: u64, allow_faults: bool, allow_cut: 
 
     let mut step = 0u64;
     loop {
-        if step > 0 && !(if steps > 10 { w.more_p(step, steps, 19, 20) } else { w.more(step, steps) }) {
+        if step > 0 && !(if steps > 60 { w.more_p(step, steps, 150, 151) } else if steps > 10 { w.more_p(step, steps, 19, 20) } else { w.more(step, steps) }) {
             break;
         }
         let this_step = step;
@@ -611,7 +611,7 @@ fn run_history(w: &W, f: &FileModel, steps: u64, allow_faults: bool, allow_cut: 
                     Ok(it) => it,
                     Err(e) => return fail("C12.c-must-succeed", format!("step {}: read_iter() after {:?} failed on an intact file with no fault injected: {}", step, fop, e)),
                 };
-                let style = w.draw(5);
+                let style = w.draw(7);
                 let (got, expect, how): (Vec<u8>, Vec<u8>, String) = match style {
                     0 => {
                         // nth with varying strides, after consuming a few items with next()
@@ -667,9 +667,28 @@ fn run_history(w: &W, f: &FileModel, steps: u64, allow_faults: bool, allow_cut: 
                         let got: Vec<u8> = it.take(want.len() + 8).last().and_then(|x| x.ok()).into_iter().collect();
                         (got, want.last().copied().into_iter().collect(), "last()".to_string())
                     }
-                    _ => {
+                    4 => {
                         let n = it.take(want.len() + 8).count();
                         (vec![(n % 251) as u8], vec![(want.len() % 251) as u8], "count() (mod 251)".to_string())
+                    }
+                    5 => {
+                        // fold (try_fold underneath for many adaptors)
+                        let got: Vec<u8> = it.take(want.len() + 8).fold(Vec::new(), |mut acc, x| {
+                            if let Ok(b) = x {
+                                acc.push(b);
+                            }
+                            acc
+                        });
+                        (got, want.clone(), "fold".to_string())
+                    }
+                    _ => {
+                        // Vec::extend / collect reserve from size_hint()
+                        let mut got: Vec<u8> = Vec::new();
+                        got.extend(it.map(|x| x.unwrap_or(b'?')));
+                        if got.len() > want.len() + 8 {
+                            got.truncate(want.len() + 8);
+                        }
+                        (got, want.clone(), "Vec::extend (size_hint)".to_string())
                     }
                 };
                 w.set_budget(u64::MAX);
@@ -989,7 +1008,7 @@ fn ix_history(w: &W) -> Verdict {
     w.probe("workload_nonempty");
     let faults = w.chance(3, 4);
     // occasionally a long history on one reader
-    let max_steps = if w.chance(1, 50) { 60 } else { 10 };
+    let max_steps = if w.chance(1, 50) { if w.chance(1, 4) { 300 } else { 60 } } else { 10 };
     run_history(w, &f, max_steps, faults, true)
 }
 
